@@ -66,22 +66,31 @@ def kind_of(ch):
     return 'other'
 
 
-def check(name, mod, x, cls, viols):
-    o = C.outcome(mod.validate, x)
-    if o[0] == 'ok' and isinstance(o[1], str) and not o[1].isascii():
-        bad = [c for c in o[1] if ord(c) > 127 and c not in ALLOWED_NATIONAL.get(name, ())]
-        if bad:
-          for kind in sorted({kind_of(c) for c in bad}):
-            sig = 'C15|%s|nonascii-result|%s' % (name, kind)
-            if sig in viols:
-                viols[sig]['count'] += 1
-            else:
-                viols[sig] = {'sig': sig, 'count': 1,
-                              'what': 'validate(%r) returned %r containing %s' % (x, o[1], ', '.join(
-                                  'U+%04X %s' % (ord(c), unicodedata.name(c, '?')) for c in bad[:3])),
-                              'witness': {'module': name, 'arg': x, 'codepoints': C.codepoints(x)[:400], 'cls': cls,
-                                          'result': o[1]}}
-    return o
+_OPTS = {}
+
+
+def check(name, mod, x, cls, viols, only_opts=None):
+    """validate(x) under the default and under every documented option value: no result may carry non-ASCII."""
+    if name not in _OPTS:
+        _OPTS[name] = [{}] + [o for o in C.validate_options(mod) if o]
+    first = None
+    for opts in ([only_opts] if only_opts is not None else _OPTS[name]):
+        o = C.outcome(mod.validate, x, **opts)
+        if first is None:
+            first = o
+        if o[0] == 'ok' and isinstance(o[1], str) and not o[1].isascii():
+            bad = [c for c in o[1] if ord(c) > 127 and c not in ALLOWED_NATIONAL.get(name, ())]
+            for kind in sorted({kind_of(c) for c in bad}):
+                sig = 'C15|%s|nonascii-result|%s' % (name, kind)
+                if sig in viols:
+                    viols[sig]['count'] += 1
+                else:
+                    viols[sig] = {'sig': sig, 'count': 1,
+                                  'what': 'validate(%r%s) returned %r containing %s' % (x, ', **%r' % opts if opts else '', o[1], ', '.join(
+                                      'U+%04X %s' % (ord(c), unicodedata.name(c, '?')) for c in bad[:3])),
+                                  'witness': {'module': name, 'arg': x, 'codepoints': C.codepoints(x)[:400], 'cls': cls,
+                                              'result': o[1], 'options': C.jsonable(opts)}}
+    return first
 
 
 def work(shard, tier):
@@ -165,7 +174,7 @@ def work(shard, tier):
 
 def replay(w):
     viols = {}
-    check(w['module'], C.number_modules()[w['module']], w['arg'], w.get('cls', ''), viols)
+    check(w['module'], C.number_modules()[w['module']], w['arg'], w.get('cls', ''), viols, only_opts=w.get('options') or {})
     return list(viols.values())
 
 
